@@ -59,3 +59,8 @@ package xpub
 //@   ensures cast("*socket", result).sendQLen == 128
 //@
 // ---- end generated default contracts ----
+// ---- generated current-queue contracts (from `govc sites -select`): the select uses the socket's queues as of the last time the lock was held ----
+//@ func (*pipe).sender
+//@   before select#1 assert selwaits(p.sendq)
+//@
+// ---- end generated current-queue contracts ----
